@@ -622,3 +622,66 @@ func throughCell(v ssa.Value) ssa.Value {
 	}
 	return v
 }
+
+// ruleUpstreamForward (R12b.fwd): in the upstream reader of MultiOpQueryer.Subscribe, every
+// frame recognised as a data frame is sent on the result channel before the next frame is
+// read: no branch between the type test and the send loops back without forwarding.
+func ruleUpstreamForward(r *Run) {
+	const rule = "R12b.fwd"
+	sub := r.Anchor(rule, "queryer.(*MultiOpQueryer).Subscribe")
+	if sub == nil {
+		return
+	}
+	n := 0
+	for _, fn := range withClosures(sub) {
+		reads := false
+		for _, ins := range allInstrs(fn) {
+			if c, ok := ins.(*ssa.Call); ok && strings.HasSuffix(calleeName(&c.Call), "wsutil.ReadServerText") {
+				reads = true
+			}
+		}
+		if !reads {
+			continue
+		}
+		for _, ins := range allInstrs(fn) {
+			iff, ok := ins.(*ssa.If)
+			if !ok {
+				continue
+			}
+			bo, ok := iff.Cond.(*ssa.BinOp)
+			if !ok || bo.Op != token.EQL {
+				continue
+			}
+			isData := false
+			for _, v := range []ssa.Value{bo.X, bo.Y} {
+				if k, ok := v.(*ssa.Const); ok && k.Value != nil && k.Value.ExactString() == `"data"` {
+					isData = true
+				}
+			}
+			if !isData {
+				continue
+			}
+			n++
+			loop := innermostLoop(iff.Block())
+			var header *ssa.BasicBlock
+			for b := range loop {
+				for _, p := range b.Preds {
+					if !loop[p] {
+						header = b
+					}
+				}
+			}
+			ok2 := header != nil
+			if ok2 {
+				ok2, _ = mustPassUntil(iff.Block().Succs[0], header, func(i ssa.Instruction) bool {
+					_, isSend := i.(*ssa.Send)
+					return isSend
+				})
+			}
+			r.Check(ok2, rule, fnName(fn), "data frame forwarded", r.P.pos(iff.Cond.Pos()),
+				"every path from the data-frame case back to the next read sends on the result channel",
+				"a frame recognised as `data` can be skipped (the loop continues without sending it on the result channel): an event the owning service emitted — for instance one that carries only errors — never reaches the client")
+		}
+	}
+	r.AtLeast(rule, "data-frame cases in the upstream reader", n, 1)
+}
